@@ -201,10 +201,12 @@ class Gen:
     def fn(self, kind, param=0):
         fls = self.cfg.fn_flavours
         fl = fls[self.ch.draw(len(fls))]
+        if fl == "cls_async_call" and kind != "combine":
+            fl = "obj_coro"  # a class as the callable only where its instances are plain results (map, starmap, ...)
         name = "%sf%d" % (self.prefix, self.nfn)
         self.nfn += 1
         susp = ()
-        if fl != "def":
+        if fl not in ("def", "cls_async_call"):
             susp = self.suspend_plan(3)
         return FnPlan(name, kind, param, fl, susp)
 
@@ -702,13 +704,16 @@ class _GroupBy(ToolBase):
         peeks = tuple(g.ch.draw(4) for _ in range(4))  # 3 = the whole group
         # after a new group arrived, step the handle of an earlier (now stale) group once
         stale = tuple(g.ch.weighted([4, 2, 2, 1]) for _ in range(4))  # 0 none, k: the group k positions back
-        return Spec("groupby", [g.src(items)], [key], {"peeks": peeks, "stale": stale})
+        # ... either right away, or only after the first item of the new group has been taken
+        late = tuple(g.ch.draw(2) for _ in range(4))
+        return Spec("groupby", [g.src(items)], [key], {"peeks": peeks, "stale": stale, "stale_late": late})
 
     def a(self, L, spec, S, F):
         gb = L.groupby(S[0], F[0]) if F[0] is not None else L.groupby(S[0])
         peeks = spec.p["peeks"]
 
         stale = spec.p["stale"]
+        late = spec.p.get("stale_late", (0, 0, 0, 0))
         stop = ("stale-stop",)
 
         async def driver():
@@ -718,11 +723,13 @@ class _GroupBy(ToolBase):
                 async for key, group in gb:
                     yield ("key", key)
                     back = stale[n % 4]
-                    if back and len(groups) >= back:
+                    old = groups[-back] if back and len(groups) >= back else None
+                    if old is not None and not late[n % 4]:
                         try:
-                            yield ("stale", await groups[-back].__anext__())
+                            yield ("stale", await old.__anext__())
                         except StopAsyncIteration:
                             yield stop
+                        old = None
                     groups.append(group)
                     peek = peeks[n % 4]
                     n += 1
@@ -730,6 +737,13 @@ class _GroupBy(ToolBase):
                     async for item in group:
                         yield item
                         taken += 1
+                        if old is not None:
+                            # the new group's first item has been handed out: now step the stale one
+                            try:
+                                yield ("stale", await old.__anext__())
+                            except StopAsyncIteration:
+                                yield stop
+                            old = None
                         if peek < 3 and taken >= peek:
                             break
             finally:
@@ -742,6 +756,7 @@ class _GroupBy(ToolBase):
         peeks = spec.p["peeks"]
 
         stale = spec.p["stale"]
+        late = spec.p.get("stale_late", (0, 0, 0, 0))
         stop = ("stale-stop",)
 
         def driver():
@@ -750,11 +765,13 @@ class _GroupBy(ToolBase):
             for key, group in gb:
                 yield ("key", key)
                 back = stale[n % 4]
-                if back and len(groups) >= back:
+                old = groups[-back] if back and len(groups) >= back else None
+                if old is not None and not late[n % 4]:
                     try:
-                        yield ("stale", next(groups[-back]))
+                        yield ("stale", next(old))
                     except StopIteration:
                         yield stop
+                    old = None
                 groups.append(group)
                 peek = peeks[n % 4]
                 n += 1
@@ -762,6 +779,12 @@ class _GroupBy(ToolBase):
                 for item in group:
                     yield item
                     taken += 1
+                    if old is not None:
+                        try:
+                            yield ("stale", next(old))
+                        except StopIteration:
+                            yield stop
+                        old = None
                     if peek < 3 and taken >= peek:
                         break
 
